@@ -1,11 +1,18 @@
 #!/bin/sh
 # seedtest.sh <patch.diff> <Cxx> [more Cxx ...] : apply a seeded change to /repo, run the checks, undo it.
+# Never run this while builder agents or run_all.sh are working (they would see the mutated tree).
 p="$1"; shift
 cd /repo || exit 2
 git diff --quiet || { echo "/repo working tree not clean"; exit 2; }
 git apply "$p" || { echo "patch does not apply"; exit 2; }
 for c in "$@"; do
   echo "=== $c against $(basename $(dirname $p))/$(basename $p)"
-  (cd /verif && timeout 1800 python3 tools/vcheck.py $c 2>&1 | grep -E "VIOLATION|KNOWN-FINDING|failure\[|^C[0-9]+ (quick|thorough)" | cut -c1-400 | head -12)
+  (cd /verif && timeout 1800 python3 tools/vcheck.py $c > work/seedtest.out 2>&1
+   grep -E "KNOWN-FINDING" work/seedtest.out | cut -c1-200
+   for k in oracle proof translate build diff; do
+     n=$(grep -c "failure\[$k\]" work/seedtest.out); [ "$n" -gt 0 ] && { echo "  [$k] x$n"; grep "failure\[$k\]" work/seedtest.out | cut -c1-400 | head -2; }
+   done
+   grep -E "VIOLATION" work/seedtest.out | head -3
+   grep -E "^C[0-9]+ (quick|thorough)" work/seedtest.out)
 done
 git checkout -- . && git status --short | head -3
